@@ -134,6 +134,28 @@ def count_is_used(fn, result_local):
     return False
 
 
+def r6_only_notfound_tolerated(ck, rule="C18-R6"):
+    """A failing output operation may be passed over in exactly one case: removing something that is not there (NotFound).  Any other
+    error kind that a function singles out after a failed remove_file / remove_dir / create_dir* / File::create is a failure that is
+    turned into 'carry on' (for the unlink before re-creating a file that also means: the file is then rewritten in place, C15)."""
+    from ..common import error_kinds_tested
+    prog = ck.prog
+    OUT = ("std::fs::remove_file", "std::fs::remove_dir", "std::fs::create_dir_all", "std::fs::create_dir", "std::fs::File::create",
+           "std::fs::rename", "std::fs::set_permissions", "std::fs::File::set_permissions")
+    n = 0
+    for fn in sorted(prog.fns.values(), key=lambda f: f.id):
+        if fn.crate != "rapidquilt":
+            continue
+        kinds = error_kinds_tested(fn, lambda x: isinstance(x, tuple) and x and x[0] == "call" and x[1] in OUT)
+        for kind, bb in kinds:
+            n += 1
+            ck.require(kind == "NotFound", rule, "only `not found` is tolerated after a failed output operation (%s)" % fn.id.split("::")[-1],
+                       "%s singles out ErrorKind::%s of a failed file-system operation: an error other than 'there was nothing to remove / no "
+                       "such directory' is passed over, the run goes on and can report success (and a file whose unlink failed is rewritten in "
+                       "place)" % (fn.id, kind), fn.where(fn.blocks[bb]["term"]), ok_detail="NotFound only")
+    ck.floor(rule, "tests of the error kind of a failed output operation", n, 3)
+
+
 def flush_sites(ck, fn):
     """Blocks of fn that flush a BufWriter: direct flush()/into_inner() calls, or calls receiving a closure that does."""
     prog, cg = ck.prog, ck.cg
@@ -311,6 +333,7 @@ def run(ck):
     r1(ck)
     r2(ck)
     r3(ck)
+    r6_only_notfound_tolerated(ck)
     cmd_push, seq, par, main = prog.one(A["cmd_push"]), prog.one(A["seq"]), prog.one(A["par"]), prog.one(A["main"])
     c05.r1(ck_alias(ck, "C18-R4"), cmd_push, seq, par)
     c05.r4(ck, par, rule="C18-R4")
